@@ -43,7 +43,9 @@ Fixpoint hist_run (st : interp) (scripts : list str) (last_is_expr : bool) : ter
   end.
 
 Definition c01_model_obs (c : term) : term :=
-  if is_kind c "hist" then
+  (* commands outside the model (`time`): only the oracle (the call returned) applies *)
+  if is_kind c "implonly" then TTag "SKIP" []
+  else if is_kind c "hist" then
     let '(st, _) := eval std_uni model_fuel (harness_interp 0) c01_prelude in
     hist_run st (term_strs (term_nth c 2)) (str_eqb (term_str (term_nth c 1)) (lit "expr"))
   else if is_kind c "deep" then
